@@ -104,15 +104,17 @@ int kalign_read_input(char* infile, struct msa** msa, int quiet)
         /* Logic: sum length of lines 1.. up to 5 */
         //LOG_MSG("%s lines: %d", infile, b->n_lines);
         j = 0;
-        for(i = 0; i < MACRO_MIN(1, b->n_lines);i++){
-                j += b->l[i]->len -1; /* exclude '0' at the end of strings  */
-                //fprintf(stdout,"%d %s\n", i, b->l[i]->line);
+        for(i = 0; i < b->n_lines;i++){
+                if(b->l[i]->len){
+                        j = 1;  /* at least one non-empty line */
+                        break;
+                }
         }
         //LOG_MSG("Len: %d",j);
         if(j == 0){
+                /* nothing to read here; sequences from earlier inputs (if any) stay in *msa */
                 DESTROY_TIMER(timer);
                 free_in_buffer(b);
-                *msa = NULL;
                 return OK;
         }
 
@@ -137,7 +139,6 @@ int kalign_read_input(char* infile, struct msa** msa, int quiet)
                 /* clean up allocated structures */
                 free_in_buffer(b);
                 DESTROY_TIMER(timer);
-                *msa = NULL;
                 return OK;
         }
         m->quiet = quiet;
